@@ -194,6 +194,35 @@ Definition py_aggregate (f : aggr) (R : list Z) : aggval :=
   | AAvg => match R with [] => VNone | _ => VRat (zsum R) (zlen R) end
   end.
 
+(* count() of an entity query: COUNT( * ) (or COUNT(DISTINCT pk)) over the WHERE-filtered rows; primary keys are unique *)
+Definition q_count_rows {A} (q : query (A:=A)) : result Z :=
+  match combine (q_window q) no_window with
+  | (None, None) => Ok (zlen (filter (q_keep q) (q_rows q)))
+  | _ => Err 2%nat
+  end.
+
+(* group_concat(): an aggregate query has no ORDER BY, so the values are concatenated in scan order; DISTINCT only by the
+   method's own argument (modelled as the list of concatenated values) *)
+Definition q_group_concat (arg : option bool) (q : query (A:=Z)) : result (list Z) :=
+  match combine (q_window q) no_window with
+  | (None, None) => Ok (dedup_if Z.eqb (match arg with Some d => d | None => false end) (filter (q_keep q) (q_rows q)))
+  | _ => Err 2%nat
+  end.
+
+(* count() of a query whose expression is a tuple (here: two integer columns).  construct_sql_ast emits COUNT( * ) when neither
+   the query nor the method asks for DISTINCT, and otherwise COUNT([DISTINCT] <first column>) -- the subquery form
+   SELECT COUNT( * ) FROM (SELECT DISTINCT ...) is reserved for entities *)
+Definition zz_eqb (x y : Z * Z) : bool := (fst x =? fst y) && (snd x =? snd y).
+Definition q_count_pair (arg : option bool) (q : query (A:=Z * Z)) : result Z :=
+  match combine (q_window q) no_window with
+  | (None, None) =>
+      let L := filter (q_keep q) (q_rows q) in
+      if negb (eff_distinct q) && negb (match arg with Some true => true | _ => false end) then Ok (zlen L)
+      else if (match arg with Some false => false | _ => true end) then Ok (zlen (dedup Z.eqb (map fst L)))
+      else Ok (zlen L)
+  | _ => Err 2%nat
+  end.
+
 (* ------------------------------------------------------------------------------------------------ boolean equalities for the correspondence run *)
 
 Definition oz_eqb (a b : option Z) : bool := match a, b with None, None => true | Some x, Some y => x =? y | _, _ => false end.
@@ -217,5 +246,10 @@ Fixpoint failing_from (n : nat) (l : list bool) : list nat :=
 Definition failing (l : list bool) : list nat := failing_from 0 l.
 
 (* concrete integer-row queries used by the correspondence run and the witnesses: rows are integers, the sort key is the row *)
+Definition rz_eqb (a b : result Z) : bool :=
+  match a, b with Ok x, Ok y => x =? y | Err i, Err j => Nat.eqb i j | _, _ => false end.
 Definition zquery (rows : list Z) (keep : Z -> bool) (ordered tdistinct : bool) (d : option bool) (w : window) : query (A:=Z) :=
   Build_query rows keep (if ordered then [fun x => x] else []) tdistinct d w.
+
+Definition zzquery (rows : list (Z * Z)) (keep : Z * Z -> bool) (ordered tdistinct : bool) (d : option bool) (w : window) : query (A:=Z * Z) :=
+  Build_query rows keep (if ordered then [fun x => fst x; fun x => snd x] else []) tdistinct d w.
